@@ -17,6 +17,7 @@ import (
 	"errors"
 	"fmt"
 	"net/http"
+	"strings"
 	"time"
 
 	"github.com/golang-jwt/jwt/v4"
@@ -44,7 +45,8 @@ func seqAuth(cfg jwtCfg, op byte) []string {
 		prevKey = secretP // not configured: a token signed by it must be rejected
 	}
 	valid := fmt.Sprintf(`{"uid":"u-1","n":7,"exp":%d,"nbf":%d}`, jwtNow+1, jwtNow)
-	expired := fmt.Sprintf(`{"uid":"u-1","exp":%d}`, jwtNow)
+	expired := fmt.Sprintf(`{"uid":"u-1","grp":"old","exp":%d}`, jwtNow)
+	forged := fmt.Sprintf(`{"uid":"u-1","n":7,"role":"admin","exp":%d,"nbf":%d}`, jwtNow+1, jwtNow) // a claim the valid tokens lack
 	var tok string
 	switch op {
 	case 'S':
@@ -56,15 +58,15 @@ func seqAuth(cfg jwtCfg, op byte) []string {
 		tok = b.h + "." + b.p + "." + b64u(flipBit(b.sig, 3))
 	case 'Y': // signed by prev, payload edited afterwards
 		b := mkBaseRaw(stdHeader("HS256"), valid, "HS256", []byte(prevKey))
-		tok = b.h + "." + b64u([]byte(`{"uid":"root","exp":9999999999}`)) + "." + b64u(b.sig)
+		tok = b.h + "." + b64u([]byte(`{"uid":"root","role":"admin","exp":9999999999}`)) + "." + b64u(b.sig)
 	case 'E': // expired, signed by prev
 		tok = mkToken(stdHeader("HS256"), expired, "HS256", []byte(prevKey))
 	case 'F': // expired, signed by s
 		tok = mkToken(stdHeader("HS512"), expired, "HS512", []byte(cfg.Secret))
 	case 'N': // alg none
-		tok = b64u([]byte(stdHeader("none"))) + "." + b64u([]byte(valid)) + "."
+		tok = b64u([]byte(stdHeader("none"))) + "." + b64u([]byte(forged)) + "."
 	case 'W': // wrong secret
-		tok = mkToken(stdHeader("HS256"), valid, "HS256", []byte("some-other-secret"))
+		tok = mkToken(stdHeader("HS256"), forged, "HS256", []byte("some-other-secret"))
 	case 'M': // no header
 		return nil
 	}
@@ -94,7 +96,16 @@ func runSeqHandler(cfg jwtCfg, ops string) (*pending, jwtExpect) {
 		p, _, _ = judgeJWT(c, exp, obs, "seq")
 	}
 	if p != nil {
-		p.Class = "seq-" + p.Class
+		if p.Class == "jwt-context-extra-claim" {
+			for i := 0; i < len(ops)-1; i++ {
+				if claimNamesOf(seqAuth(cfg, ops[i]))[p.Detail] {
+					p.Class = "jwt-claims-leaked-from-earlier-request"
+				}
+			}
+		}
+		if !strings.HasPrefix(p.Class, "panic:") {
+			p.Class = "seq-" + p.Class
+		}
 		p.Replay = replayCase{Family: "seq", Seq: &seqCase{Level: "handler", Cfg: cfg, Ops: ops}}
 		p.Desc = "after request history " + ops + ": " + p.Desc
 	}
@@ -105,14 +116,27 @@ const jumpAge = 25 * time.Hour // reset duration is 24h
 
 // runSeqParser replays ops on a fresh TokenParser; returns the white-box dump and the verdict of the last op.
 func runSeqParser(cfg jwtCfg, ops string) (dump string, p *pending, exp jwtExpect) {
-	tp := token.NewTokenParser()
+	var tp *token.TokenParser
+	seqRep := func() replayCase {
+		return replayCase{Family: "seq", Seq: &seqCase{Level: "parser", Cfg: cfg, Ops: ops}}
+	}
+	if pi := guard(func() { tp = token.NewTokenParser() }); pi != nil {
+		return "panicked", panicPending(pi, "constructing a TokenParser", seqRep()), exp
+	}
 	for i := 0; i < len(ops); i++ {
 		if ops[i] == 'J' {
 			tp = token.VerifAged(tp, jumpAge)
 			continue
 		}
 		auth := seqAuth(cfg, ops[i])
-		tok, err := tp.ParseToken(newAuthReq(auth), cfg.Secret, cfg.Prev)
+		var tok *jwt.Token
+		var err error
+		if pi := guard(func() { tok, err = tp.ParseToken(newAuthReq(auth), cfg.Secret, cfg.Prev) }); pi != nil {
+			if i < len(ops)-1 {
+				return "panicked", nil, exp // reported when this prefix was expanded
+			}
+			return "panicked", panicPending(pi, "TokenParser.ParseToken served history "+ops, seqRep()), exp
+		}
 		if i < len(ops)-1 {
 			continue
 		}
@@ -131,7 +155,18 @@ func runSeqParser(cfg jwtCfg, ops string) (dump string, p *pending, exp jwtExpec
 		case accepted:
 			mc, ok := tok.Claims.(jwt.MapClaims)
 			if !ok || jsonOf(map[string]any(mc)) != jsonOf(exp.Claims) {
-				fail("seq-jwt-claim-mismatch", fmt.Sprintf("claims %s, token says %s", jsonOf(tok.Claims), jsonOf(exp.Claims)))
+				class := "seq-jwt-claim-mismatch"
+				for k := range mc {
+					if _, own := exp.Claims[k]; own {
+						continue
+					}
+					for j := 0; j < i; j++ {
+						if ops[j] != 'J' && claimNamesOf(seqAuth(cfg, ops[j]))[k] {
+							class = "seq-jwt-claims-leaked-from-earlier-request"
+						}
+					}
+				}
+				fail(class, fmt.Sprintf("claims %s, token says %s", jsonOf(tok.Claims), jsonOf(exp.Claims)))
 			}
 		}
 	}
